@@ -10,6 +10,9 @@
 #include <map>
 #include <set>
 #include <sstream>
+#include <dlfcn.h>
+#include <pthread.h>
+#include <system_error>
 #include <sys/wait.h>
 #include <unistd.h>
 
@@ -46,6 +49,22 @@ struct Registry {
 
 static uint64_t g_poison = ~0ULL;       // equality throws when comparing against this key value
 static std::atomic<long> g_ctor_fail_at{0}, g_ctor_count{0}; // value construction from arguments: the k-th throws
+
+// Thread-creation faults: the k-th pthread_create fails with EAGAIN (std::thread then throws std::system_error), as it
+// does when the process runs out of threads or of memory for a stack.  The definition in the executable precedes the
+// ones of libasan / libc in symbol resolution; the real one is reached through RTLD_NEXT.
+static std::atomic<long> g_thr_fail_at{0}, g_thr_count{0};
+extern "C" int pthread_create(pthread_t *th, const pthread_attr_t *attr, void *(*fn)(void *), void *arg) {
+  typedef int (*real_t)(pthread_t *, const pthread_attr_t *, void *(*)(void *), void *);
+  static real_t real = (real_t)dlsym(RTLD_NEXT, "pthread_create");
+  long f = g_thr_fail_at.load();
+  if (f != 0 && ++g_thr_count == f) {
+    int fd = AllocCtl::note_fd();
+    if (fd >= 0) { const char m[] = "@pthread_create;"; ssize_t r = ::write(fd, m, sizeof m - 1); (void)r; }
+    return EAGAIN;
+  }
+  return real(th, attr, fn, arg);
+}
 struct EqThrow {};
 struct CtorThrow {};
 
@@ -222,7 +241,8 @@ static std::string run_op(Tbl &t, std::unique_ptr<LT> &lt, const OpSpec &o) {
   } catch (libcuckoo::load_factor_too_low &) { return "err lftl";
   } catch (libcuckoo::maximum_hashpower_exceeded &) { return "err maxhp";
   } catch (EqThrow &) { return "err eqthrow";
-  } catch (CtorThrow &) { return "err ctorthrow"; }
+  } catch (CtorThrow &) { return "err ctorthrow";
+  } catch (std::system_error &) { return "err syserr"; }
 }
 
 static bool is_resize(const OpSpec &o) { return o.kind == "rehash" || o.kind == "reserve"; }
@@ -241,6 +261,11 @@ static std::string trial(Tbl &orig, const OpSpec &o, long k, bool locked, const 
     r = run_op(c, lt, o);
     fired = AllocCtl::n_allocs.load() >= k;
     AllocCtl::fail_at = 0;
+  } else if (std::string(mode) == "thread") {
+    g_thr_count = 0; g_thr_fail_at = k;
+    r = run_op(c, lt, o);
+    fired = g_thr_count >= k;
+    g_thr_fail_at = 0;
   } else {
     g_ctor_count = 0; g_ctor_fail_at = k;
     r = run_op(c, lt, o);
@@ -248,7 +273,7 @@ static std::string trial(Tbl &orig, const OpSpec &o, long k, bool locked, const 
     g_ctor_fail_at = 0;
   }
   if (!fired) return "done";
-  const char *want = std::string(mode) == "alloc" ? "err badalloc" : "err ctorthrow";
+  const char *want = std::string(mode) == "alloc" ? "err badalloc" : std::string(mode) == "thread" ? "err syserr" : "err ctorthrow";
   if (r.rfind("BAD", 0) == 0) return r.substr(4);
   if (r != want) {
     if (r.rfind("err", 0) == 0) return "the failure reached the caller as a different exception: result \"" + r + "\"";
@@ -279,7 +304,12 @@ static std::string trial(Tbl &orig, const OpSpec &o, long k, bool locked, const 
   std::string p;
   Abs now = abs_of(c, &p);
   if (!p.empty()) return p;
-  if (now != base) return "contents changed by the failed call (" + std::to_string(base.size()) + " pairs before, " + std::to_string(now.size()) + " after, or a value differs)";
+  if (now != base) {
+    std::string msg = "contents changed by the failed call (" + std::to_string(base.size()) + " pairs before, " + std::to_string(now.size()) + " after, or a value differs)";
+    // quiescent again: size() must be the number of pairs the table holds NOW, whatever the failed call did to them
+    if (c.size() != now.size()) msg += "; size() " + std::to_string(c.size()) + " != number of pairs " + std::to_string(now.size()) + " now in the table";
+    return msg;
+  }
   if (is_resize(o) && c.hashpower() != pre_hp) return "failed " + o.kind + " changed the hashpower from " + std::to_string(pre_hp) + " to " + std::to_string(c.hashpower());
   std::string inv = check_inv(c);
   if (inv != "inv ok") return "table left in a broken state: " + inv;
@@ -346,6 +376,11 @@ int main() {
   std::unique_ptr<LT> lt;
   std::string line;
   while (std::getline(std::cin, line)) {
+    // "ifpending <request>": only while deferred migration is pending (otherwise answered "skip")
+    if (line.rfind("ifpending ", 0) == 0) {
+      if (!t || Access::rem(*t) == 0) { fputs("skip\n", stdout); continue; }
+      line = line.substr(10);
+    }
     std::istringstream is(line);
     std::string w; is >> w;
     std::string out;
@@ -375,9 +410,9 @@ int main() {
       }
       out = p.empty() ? "scan ok n=" + std::to_string(m.size()) + " objs=" + std::to_string(R.live.size()) : "scan BAD " + p;
     }
-    else if (w == "sweep" || w == "ltsweep" || w == "ctorsweep") {
+    else if (w == "sweep" || w == "ltsweep" || w == "ctorsweep" || w == "thrsweep" || w == "ltthrsweep") {
       OpSpec o = parse_op(is);
-      out = sweep(*t, o, w == "ltsweep", w == "ctorsweep" ? "ctor" : "alloc");
+      out = sweep(*t, o, w == "ltsweep" || w == "ltthrsweep", w == "ctorsweep" ? "ctor" : (w == "thrsweep" || w == "ltthrsweep") ? "thread" : "alloc");
     }
     else if (w == "destroy") {
       lt.reset(); t.reset();
